@@ -39,6 +39,9 @@ K3_PROP = 1 | 2 | 4 | 8 | 32
 K4_FLAGS = {1: "tie:generated-arc-inconsistent", 2: "prop:arc-dash-not-on-the-same-ellipse/direction", 4: "prop:arc-dashes-out-of-order",
             8: "prop:arc-dash-length-differs-from-pattern(+-2%)", 16: "prop:arc-dash-large-flag-contradicts-its-end-points", 32: "prop:arc-dash-count-differs", 64: "prop:panic"}
 K4_PROP = 2 | 4 | 8 | 16 | 32 | 64
+K5_FLAGS = {1: "prop:pattern-boundary-on-the-line-after-curves-not-cut-at-its-arc-length", 2: "prop:line-after-curves-cut-where-no-boundary-falls",
+            4: "tie:go-length-outside-enclosure", 32: "prop:panic"}
+K5_PROP = 1 | 2 | 32
 KNOWN_PANIC = "theta not in elliptic arc range for splitting"   # recorded under C10/C13
 
 
@@ -58,21 +61,27 @@ def run(ctx):
     rows = vlib.coq_eval_shards("c05-%d" % ctx.seed, HEADER, [c["coq"] for c in cases], shard=ctx.n(80, 400))
     flagcount, classes = {}, {}
     prop_fail, tie_fail = [], []
-    nk1 = nk2 = nsub = nk3 = nk3pieces = nk4 = nk4pieces = 0
+    nk1 = nk2 = nsub = nk3 = nk3pieces = nk4 = nk4pieces = nk5 = nk5cuts = 0
     nontrivial = set()
     distinct = set()
     for c, row in zip(cases, rows):
         k1 = c["desc"]["kind"] == "K1"
         k3 = c["desc"]["kind"] == "K3"
         k4 = c["desc"]["kind"] == "K4"
-        names, pm, tm = (K1_FLAGS, K1_PROP, K1_TIE) if k1 else ((K3_FLAGS, K3_PROP, 0) if k3 else ((K4_FLAGS, K4_PROP, 1) if k4 else (K2_FLAGS, K2_PROP, K2_TIE)))
+        k5 = c["desc"]["kind"] == "K5"
+        names, pm, tm = (K5_FLAGS, K5_PROP, 4) if k5 else (K1_FLAGS, K1_PROP, K1_TIE) if k1 else ((K3_FLAGS, K3_PROP, 0) if k3 else ((K4_FLAGS, K4_PROP, 1) if k4 else (K2_FLAGS, K2_PROP, K2_TIE)))
         key = json.dumps([c["desc"].get("path"), c["desc"]["offset"], c["desc"]["dashes"]])
         distinct.add(key)
         fl = 0
         for k in range(len(row) // 3):
             f, a, b = row[3 * k], row[3 * k + 1], row[3 * k + 2]
             fl |= f
-            if k4:
+            if k5:
+                nk5 += 1
+                nk5cuts += b
+                if b >= 1:
+                    nontrivial.add(key)
+            elif k4:
                 nk4 += 1
                 nk4pieces += a
                 if a >= 2:
@@ -94,7 +103,7 @@ def run(ctx):
                     classes["k2-joined"] = classes.get("k2-joined", 0) + 1
         if k1:
             nk1 += 1
-        elif not k3 and not k4:
+        elif not k3 and not k4 and not k5:
             nk2 += 1
         for b, name in names.items():
             if fl & b:
@@ -171,7 +180,7 @@ def run(ctx):
                                             "Path.SplitAt / Path.Length / Path.Join are not modelled: their effect is judged on Dash's output (K2, straight-line paths only)"]),
         evaluations=len(cases), distinct_nontrivial=len(nontrivial), distinct=len(distinct),
         rule="one evaluation = one (path, offset, dash array) run through the Go code (dashCanonical, dashStart, Context.DrawPath's decision, Path.Dash) and through the Coq model and spec; distinct by (path, offset, dash array); non-trivial: the model makes at least one cut (K1 class 3) or the specification prescribes at least two pieces on some subpath (K2)",
-        k1_cases=nk1, k2_cases=nk2, k2_subpaths=nsub, k3_curved_cases=nk3, k3_curved_pieces_certified=nk3pieces, k4_arc_cases=nk4, k4_arc_dashes_judged=nk4pieces, known_finding_cases=nknown,
+        k1_cases=nk1, k2_cases=nk2, k2_subpaths=nsub, k3_curved_cases=nk3, k3_curved_pieces_certified=nk3pieces, k4_arc_cases=nk4, k5_curves_then_line_cases=nk5, k5_pattern_boundaries_on_line_judged=nk5cuts, k4_arc_dashes_judged=nk4pieces, known_finding_cases=nknown,
         traces_validated_against_impl=len(cases), disagreements_checked=len(prop_fail) + len(tie_fail),
         k1_classes={"identity": classes.get(0, 0), "nothing": classes.get(1, 0), "first-element-covers": classes.get(2, 0), "cuts": classes.get(3, 0), "fuel": classes.get(9, 0)},
         k2_closed_subpaths_joined=classes.get("k2-joined", 0),
@@ -181,5 +190,5 @@ def run(ctx):
     )
     return ctx.finish("proof", cov, [
         "dash arrays, offsets and coordinates on the 1/4 mm grid (coarser than Epsilon) so that every Epsilon comparison in the Go code is decided as in the exact model",
-        "curved segments: K3 covers one open quadratic / convex cubic Bezier per case (certified sub-curves; every cut's arc-length position vs the pattern within enclosure +-1 % of the path length: checked, not proved); K4 covers one elliptical arc per case (dashes judged against the ellipse by orientation predicates, lengths through Go's own Length of each dash); cusps/loops/inflections (C09 known finding) and mixed curved paths are not covered",
+        "curved segments: K3 covers one open quadratic / convex cubic Bezier per case (certified sub-curves; every cut's arc-length position vs the pattern within enclosure +-1 % of the path length: checked, not proved); K4 covers one elliptical arc per case (dashes judged against the ellipse by orientation predicates, lengths through Go's own Length of each dash); K5 covers one or two Bezier segments followed by a long line (arc length consumed by uncut curves carried over to the cuts on the line); cusps/loops/inflections (C09 known finding) are not covered",
         "K2 slack 2^-30 mm on point positions (float rounding of Interpolate/Length)"])
